@@ -341,6 +341,8 @@ type recChain struct {
 	ci        *snow.ConsensusIndex[*blk, *out, *acc]
 	vm        *snow.VM[*blk, *out, *acc]
 
+	skipHeightProbe bool
+
 	// build parameters set by the engine model right before vm.BuildBlock
 	nextPayload uint64
 
@@ -453,7 +455,9 @@ func (c *recChain) AcceptBlock(_ context.Context, parent *acc, o *out) (*acc, er
 		} else if b.ID() != o.id {
 			errs = append(errs, "GetBlock returned another block")
 		}
-		if id, err := c.vm.GetBlockIDAtHeight(context.Background(), o.Hght); err != nil {
+		if c.skipHeightProbe {
+			// known finding C20-height-lookup-torn-read: no by-height lookup off the engine thread
+		} else if id, err := c.vm.GetBlockIDAtHeight(context.Background(), o.Hght); err != nil {
 			errs = append(errs, "GetBlockIDAtHeight: "+err.Error())
 		} else if id != o.id {
 			errs = append(errs, "GetBlockIDAtHeight returned another block")
@@ -596,6 +600,10 @@ func newEngine(st *vstat.Stats, parsedW, acceptedW int, initReady bool, c21 bool
 	gOut := &out{blk: g, Digest: nextDigest('o', digest{}, g.id), Src: "genesis"}
 	gAcc := &acc{out: gOut, AccDigest: nextDigest('a', digest{}, g.id)}
 	ch := &recChain{rec: rec, idx: idx, genesis: g, genOut: gOut, genAcc: gAcc, initReady: initReady}
+	if knownF30(st) {
+		st.Exclude(findingF30)
+		ch.skipHeightProbe = true
+	}
 	// (the driver passes known findings per property: C21 shares the engine, so an entry
 	// with property C21 and id "C21-accept-parent-evicted" switches the same exclusion on)
 	knownF19 := st.Known(findingF19) || st.Known("C21-accept-parent-evicted")
